@@ -477,8 +477,9 @@ func (l *Lab) EventsOfStep() []Event {
 
 // Peer builds inbound messages as the counterparty.
 type Peer struct {
-	L       *Lab
-	NextOut int
+	L                 *Lab
+	NextOut           int
+	SendingTimeOffset time.Duration
 }
 
 func (l *Lab) NewPeer() *Peer { return &Peer{L: l, NextOut: 1} }
@@ -494,8 +495,9 @@ func (p *Peer) TS(d time.Duration) string {
 
 // Msg builds a message with the given type and sequence number; hdr are extra header fields
 // (e.g. 43, 122), body the body fields.
+// (SendingTimeOffset shifts the SendingTime stamp of the messages built next; zero for an honest clock.)
 func (p *Peer) Msg(msgType string, seq int, hdr, body fixwire.Fields) []byte {
-	rest := fixwire.Fields{{Tag: 35, Val: msgType}, {Tag: 34, Val: fmt.Sprint(seq)}, {Tag: 49, Val: p.L.SID.TargetCompID}, {Tag: 52, Val: p.TS(0)}, {Tag: 56, Val: p.L.SID.SenderCompID}}
+	rest := fixwire.Fields{{Tag: 35, Val: msgType}, {Tag: 34, Val: fmt.Sprint(seq)}, {Tag: 49, Val: p.L.SID.TargetCompID}, {Tag: 52, Val: p.TS(p.SendingTimeOffset)}, {Tag: 56, Val: p.L.SID.SenderCompID}}
 	rest = append(rest, hdr...)
 	rest = append(rest, body...)
 	return fixwire.Build(p.L.Cfg.Begin, rest)
